@@ -22,8 +22,11 @@ def ilvExpect (C : Nat) (bw : Bool) (xs : List Int) : Option (List Int) :=
   some ((List.range R).flatMap (fun r => (List.range C).map (fun c =>
     xs.getD ((if bw then C - 1 - c else c) * R + r) 0)))
 
-def handle (inp out : List String) : String :=
+partial def handle (inp out : List String) : String :=
   match inp with
+  -- the interleaver object was used on blocks of other lengths before: the laws are per call, so the warm-up is ignored
+  | ["ilw", c, bw, _warm, l] => handle ["il", c, bw, l] out
+  | ["dilw", c, bw, _warm, l] => handle ["dil", c, bw, l] out
   | ["il", c, bw, l] =>
     match c.toNat?, parseIntList l with
     | some c, some xs =>
